@@ -29,6 +29,9 @@ CHECKS = {
  "C20": ("bounded-exhaustive enumeration of malformed derive inputs (rule x consuming derive x variant kind x position x repetition form) compiled by rustc; per-item diagnostic attribution with iterated passes; one-bit observation (located error / panic / clean)",
          "Every rejection rule of the statement is instantiated on every derive that consumes the construct, in every listed shape/position/form; each item must receive a located compile error, must not make the derive panic and must not compile cleanly; valid controls must stay diagnostic-free. The observation per program is rustc's verdict, so the enumeration is of the program space only.",
          "trusted: rustc JSON diagnostics and spans, the applicability table (derive docs); an error anywhere inside the item counts as located at the item", "DESIGN.md §4 C20"),
+ "C19": ("bounded-exhaustive program-space enumeration (<=k deviations, every admissible non-deprecated derive on each enum) compiled under three configurations (no_std/no alloc, renamed strum path, shadowed core/std); per-program diagnostic attribution; one-bit observation",
+         "Every enum of the bounded space carries all derives it admits and is type-checked by rustc in a #![no_std] crate without alloc, in a crate where strum is only reachable under another path, and next to local modules named core/std; any diagnostic is attributed to its program. The observation per (program, configuration) is rustc's accept/reject, so what is enumerated is the program/configuration space.",
+         "trusted: rustc name resolution and type checking, the admissible-derive table; check-only build", "DESIGN.md §4 C19"),
 }
 PENDING = {}
 
